@@ -12,7 +12,7 @@ Totals == /\ IsEvent("Totals")
           /\ bad' = ReportAll(bad, scn, l, << <<Ev.got = Ev.expect, IF "clause" \in DOMAIN Ev THEN Ev.clause ELSE "C09.NoLostUpdate">> >>)
           /\ UNCHANGED <<scn, drift>> /\ nev' = nev + 1
 AtMost == /\ IsEvent("AtMost")
-          /\ bad' = ReportAll(bad, scn, l, << <<Ev.got <= Ev.bound, "C09.BoundHoldsUnderConcurrency">> >>)
+          /\ bad' = ReportAll(bad, scn, l, << <<Ev.got <= Ev.bound, IF "clause" \in DOMAIN Ev THEN Ev.clause ELSE "C09.BoundHoldsUnderConcurrency">> >>)
           /\ UNCHANGED <<scn, drift>> /\ nev' = nev + 1
 End == /\ IsEvent("End")
        /\ JsonSerialize("result.json", [bad |-> bad, drift |-> drift, events |-> nev, lines |-> l])
